@@ -12,10 +12,23 @@ Deciding monitor M (boundary oracle, public API only):
            (never with a read-back of the built object); the paragraph sequence
            (kind and identity, in the order the built document reports) must be the
            same; dumping the re-parsed document must give the identical text.
+* M.perm   PARSED starting points: the dump T of the built document (only when
+           M.doc had nothing to say about it) is cut into its paragraphs at the
+           empty separator lines, the non-header paragraphs are permuted (seeded,
+           op['pos']) so that stand-alone License paragraphs also come BEFORE and
+           BETWEEN Files paragraphs, and re-joined -> T2 (no formatting of the
+           library is re-implemented: every paragraph is text the library wrote).
+           Copyright(T2, strict=True) must expose the paragraphs in T2's order
+           with the generator's values, dump() must be T2 byte for byte, and one
+           more parse/dump cycle must give the same values and the same text.
 * M.codec  parse_multiline_as_lines(format_multiline_lines(L)) == L (compared as
            '\\n'-joined text, so [] == ['']) for line lists L in which no line is
            whitespace-only or a lone '.'; same for the str-level pair and for
-           License.from_str(License(s, t).to_str()).
+           License.from_str(License(s, t).to_str()); M.license-enc: for the ENCODED
+           string s = License(syn, text).to_str() the library produced,
+           License.from_str(s).to_str() == s, judged against the encoded string
+           itself; the texts include ones whose non-empty lines all share a common
+           leading indentation (blanks, tabs, mixed).
 
 Auxiliary monitor K.codec: contract on copyright.format_multiline_lines itself -
 on EVERY call made by any workload (also the internal ones from License.to_str)
@@ -44,7 +57,17 @@ RULE = ('Seeded specs of copyright documents: header (optional Upstream-Name, Up
         'License paragraph and at least one multi-line text showing one of: empty line, leading indentation/tab, '
         'non-ASCII character, trailing blank.  Codec line lists: random lists over a hostile line alphabet plus '
         'ALL lists of length <= 4 over an 11-line alphabet; a list is non-trivial when it is in the stated domain, '
-        'has >= 2 lines and contains an empty line or a line with leading or trailing blank.')
+        'has >= 2 lines and contains an empty line or a line with leading or trailing blank.  PARSED starting '
+        'points (perm:*): the dump of every built document with >= 2 non-header paragraphs is cut at its empty '
+        'separator lines, the non-header paragraphs are permuted by the seeded per-paragraph rank op["pos"] '
+        '(absent in old replay files: order of addition) and re-joined; classes counted: stand-alone License '
+        'paragraph before the first Files paragraph, License paragraph between two Files paragraphs, Files '
+        'paragraph after a License paragraph, Files paragraphs reordered among themselves, License-only and '
+        'Files-only permutations; each is parsed strictly, compared value by value with the spec, dumped, parsed '
+        'and dumped again (second cycle fed in the next input form).  Common-indentation texts (feat:common-indent, '
+        'lic:common-indent*): about one text in eight is drawn from a class in which every non-empty line starts '
+        'with the same run of blanks / tabs / blank+tab (some lines indented deeper, empty lines in between, '
+        'optionally trailing blanks), and one raw value in five gives all continuation lines the same lead.')
 ASSUMPTIONS = [
     'domain: text lines never whitespace-only (unless empty) nor a lone "."; last line of a text non-blank; only \\n as '
     'line boundary (no \\r, \\v, \\f, \\x1c-\\x1e, \\x85, U+2028/9); first lines and single-line values without outer blanks',
@@ -53,6 +76,18 @@ ASSUMPTIONS = [
     'expected paragraph ORDER is read from the built document (all_paragraphs(), by object identity); all VALUES '
     'come from the generated spec; the built document must contain every added paragraph exactly once',
     'python-apt absent: Deb822.iter_paragraphs uses the internal parser (the only one reachable from Copyright())',
+    'permuted starting points are only derived from a dump about which M.doc had no complaint, and only when the dump '
+    'ends in one newline and cutting it at "\\n\\n" gives exactly 1 + (number of paragraphs) non-empty pieces none of '
+    'which starts or ends with a newline (no generated value contains an empty line: texts are encoded by the library, '
+    'raw values carry a non-blank on every continuation line); otherwise nothing is demanded (perm:unsplittable); the '
+    'header paragraph always stays first; a permutation equal to the built order is not run again (perm:identity)',
+    'expected values of the permuted document are the spec values of the paragraph each piece was dumped from '
+    '(piece k+1 of the dump belongs to the k-th paragraph all_paragraphs() reported, by identity); the expected text '
+    'of its dump is T2 itself, because every piece is a paragraph dump the library produced and the built-order '
+    're-dump of the same pieces was already byte-identical',
+    'License.from_str(s).to_str() == s is only demanded for s = License(synopsis, text).to_str() of an in-domain '
+    'License whose decoded value was already equal to the generator\'s (so only what the stated inverse law implies '
+    'for a pure to_str is demanded); never for hand-written encoded strings',
 ]
 ANCHORS = [
     'debian.copyright:format_multiline_lines',
